@@ -1,21 +1,53 @@
 """Runs gcirc, the ICRS <-> SDSSMuNu frame transforms, stripe_to_eta/incl and angles_to_x / x_to_angles of the
 repository under test on a list of jobs (stdin JSON) and returns the raw doubles (stdout JSON).
-Floats travel as repr (exact round trip); NaN/inf as the strings 'nan', 'inf', '-inf'."""
+Floats travel as repr (exact round trip); NaN/inf as the strings 'nan', 'inf', '-inf'.
+
+Process-global state (np.geterr, warnings.filters, print options, decimal context, the global random streams, os.environ) is
+recorded BEFORE pydl is imported (numpy and astropy are already loaded then), after the import and -- op `globals` -- after
+the calls of the run: importing or calling pydl must not change any of it."""
+import copy
+import decimal
+import hashlib
 import json
 import math
+import os
+import pickle
+import random
 import sys
 import warnings
 
 import numpy as np
+from astropy import units as u
+from astropy.coordinates import ICRS, SkyCoord, UnitSphericalRepresentation
+import astropy.coordinates  # noqa: F401  (everything astropy-side is loaded before the first snapshot)
 
-warnings.simplefilter('ignore')
 
+def global_state():
+    h = hashlib.sha1
+    return {'np.geterr': dict(np.geterr()),
+            'warnings.filters': [repr(f)[:120] for f in warnings.filters],
+            'np.printoptions': {k: repr(v) for k, v in np.get_printoptions().items()},
+            'decimal.prec': decimal.getcontext().prec,
+            'np.random': h(repr(np.random.get_state()[1].tolist()).encode()).hexdigest()[:12],
+            'random': h(repr(random.getstate()).encode()).hexdigest()[:12],
+            'os.environ': h(repr(sorted(os.environ.items())).encode()).hexdigest()[:12],
+            'sys.path0': sys.path[0] if sys.path else None,
+            'float_repr': repr(0.1 + 0.2)}
+
+
+STATE_BEFORE_IMPORT = global_state()
+
+# the way a user imports it: the package first, then the public names
 import pydl  # noqa: E402
 from pydl.goddard.astro import gcirc  # noqa: E402
 from pydl.pydlutils import coord as pc  # noqa: E402
 from pydl.pydlutils.mangle import angles_to_x, x_to_angles  # noqa: E402
-from astropy import units as u  # noqa: E402
-from astropy.coordinates import ICRS  # noqa: E402
+
+STATE_AFTER_IMPORT = global_state()
+FILTERS_AFTER_IMPORT = list(warnings.filters)
+
+warnings.simplefilter('ignore')
+STATE_RUNNER = global_state()     # the runner's own filter is in place from here on
 
 
 # truthy / falsy values a caller may pass for the `latitude` flag (the same object goes to both functions)
@@ -52,12 +84,53 @@ def stored(col, storage):
         big = np.zeros(2 * col.size + 1, dtype='d')
         big[1::2] = col
         return big[1::2], col.copy()
+    if storage == 'reversed':             # negative stride
+        big = col[::-1].copy()
+        return big[::-1], col.copy()
+    if storage == '2d-column':            # non-contiguous 2-D (n, 1) column of a wider array
+        big = np.zeros((col.size, 3), dtype='d')
+        big[:, 1] = col
+        return big[:, 1:2], col.copy()
+    if storage == '2d-fortran':           # Fortran-ordered (2, n/2); ravel() of the result is in logical (C) order
+        return np.asfortranarray(col.reshape(2, -1)), col.copy()
+    if storage == '2d-transposed':        # transposed view of a C array
+        return np.ascontiguousarray(col.reshape(2, -1).T).T, col.copy()
+    if storage == 'readonly':
+        a = col.copy()
+        a.setflags(write=False)
+        return a, col.copy()
     if storage == 'list':
         return [float(v) for v in col], col.copy()
     if storage == 'quantity':
         return col.copy() * u.deg, col.copy()
     a = col.astype(storage)
     return a, a.astype('d')
+
+
+def stored2d(pts, st):
+    """the 2-D float64 array `pts` in another storage type / memory layout"""
+    n, m = pts.shape
+    if st == 'noncontig':
+        big = np.zeros((n, 2 * m + 1), dtype='d')
+        big[:, 1::2] = pts
+        return big[:, 1::2]
+    if st == 'fortran':
+        return np.asfortranarray(pts)
+    if st == 'transposed':
+        return np.ascontiguousarray(pts.T).T
+    if st == 'reversed':
+        return pts[::-1].copy()[::-1]
+    if st == 'reversed-columns':
+        return pts[:, ::-1].copy()[:, ::-1]
+    if st == 'rows-strided':
+        big = np.zeros((3 * n, m), dtype='d')
+        big[::3] = pts
+        return big[::3]
+    if st == 'readonly':
+        a = pts.copy()
+        a.setflags(write=False)
+        return a
+    return pts.astype(st)
 
 
 def same(a, b):
@@ -92,6 +165,102 @@ def vector_reference_deg(a1, d1, a2, d2):
     q = np.array([np.cos(d2) * np.cos(a2), np.cos(d2) * np.sin(a2), np.sin(d2)])
     c = np.cross(p.T, q.T)
     return np.degrees(np.arctan2(np.sqrt((c * c).sum(1)), (p * q).sum(0)))
+
+
+
+# ----------------------------------------------------------------------------
+# calling conventions for ONE point pair (every family of pairs goes through all of them, not only through the array call)
+# ----------------------------------------------------------------------------
+
+CONVENTIONS = {
+    'pyfloat': lambda v: float(v),
+    'npfloat64': lambda v: np.float64(v),
+    '0d': lambda v: np.array(float(v), dtype='d'),
+    '1elem': lambda v: np.array([float(v)], dtype='d'),
+    'list': lambda v: [float(v)],
+    'npfloat32': lambda v: np.float32(v),           # the numbers change: the reference is computed from the stored ones
+    'pyint': lambda v: int(round(float(v))),        # integral coordinates
+    'mixed': None,                                  # float, np.float64, 0-d array, Python float in one call
+}
+EXACT_CONVENTIONS = ('pyfloat', 'npfloat64', '0d', '1elem', 'list', 'mixed')     # hold exactly the float64 numbers
+_MIXED = (float, np.float64, lambda v: np.array(float(v), dtype='d'), float)
+
+
+def conv_args(conv, p):
+    if conv == 'mixed':
+        return [f(v) for f, v in zip(_MIXED, p)]
+    return [CONVENTIONS[conv](v) for v in p]
+
+
+def as_float64(a):
+    return [float(np.asarray(v, dtype='d').ravel()[0]) for v in a]
+
+
+def one_reference_deg(un, p):
+    """vector formula for one pair given in the convention `un` (float64 numbers)"""
+    if un == 0:
+        b = [math.degrees(v) for v in p]
+    elif un == 1:
+        b = [p[0] * 15.0, p[1], p[2] * 15.0, p[3]]
+    else:
+        b = list(p)
+    return float(vector_reference_deg(*[np.array([v]) for v in b])[0])
+
+
+def scalar_conventions(un, rows, conventions=None):
+    """rows: list of [ra1, dec1, ra2, dec2] (float64, convention `un`).  Every row is passed to gcirc in every calling
+    convention; strict floating-point error state (an invalid operation or a division by zero on legal input would raise).
+    Returns per convention: calls, counts per fault, the first example per fault."""
+    top = math.pi if un == 0 else 648000.0
+    to_deg = 180.0 / math.pi if un == 0 else 1.0 / 3600.0
+    floor = 1e-8 / 3600.0
+    out = {}
+    for conv in (conventions or list(CONVENTIONS)):
+        st = {'calls': 0, 'counts': {}, 'examples': {}}
+        for p in rows:
+            a = conv_args(conv, p)
+            keep = copy.deepcopy(a)
+            num = as_float64(a)
+            st['calls'] += 1
+            fault, got = None, None
+            try:
+                with np.errstate(invalid='raise', divide='raise', over='raise', under='ignore'):
+                    r = gcirc(*a, units=un)
+                rv = np.asarray(getattr(r, 'value', r), dtype='d').ravel()
+                got = fl(rv[0]) if rv.size == 1 else [fl(x) for x in rv]
+                if rv.size != 1:
+                    fault = 'shape'
+                elif not math.isfinite(rv[0]):
+                    fault = 'nan'
+                elif not (0 <= rv[0] <= top * (1 + 1e-12)):
+                    fault = 'range'
+                else:
+                    ref = one_reference_deg(un, num)
+                    if abs(rv[0] * to_deg - ref) > 1e-6 * ref + floor:
+                        fault = 'accuracy'
+                if fault is None and not all(same(x, y) if isinstance(x, np.ndarray) else (x == y and type(x) is type(y))
+                                             for x, y in zip(a, keep)):
+                    fault = 'input-modified'
+            except Exception as e:  # noqa: BLE001 - the error class is the observation
+                fault, got = 'raises-' + type(e).__name__, str(e)[:120]
+            if fault:
+                st['counts'][fault] = st['counts'].get(fault, 0) + 1
+                if fault not in st['examples']:
+                    st['examples'][fault] = {'input': num, 'gcirc': got, 'reference_deg': one_reference_deg(un, num),
+                                             'argument_types': [type(x).__name__ for x in a]}
+        out[conv] = st
+    return out
+
+
+def naive_sindis2(un, a):
+    """the haversine sum in float64, written out naively: which pairs are rounding-critical (closest to / above 1, closest to 0)"""
+    ra1, dec1, ra2, dec2 = a
+    if un == 0:
+        d1, d2, dd, dr = dec1, dec2, dec2 - dec1, ra2 - ra1
+    else:
+        k = 15.0 if un == 1 else 1.0
+        d1, d2, dd, dr = np.deg2rad(dec1), np.deg2rad(dec2), np.deg2rad(dec2 - dec1), np.deg2rad(k * (ra2 - ra1))
+    return np.sin(dd / 2) ** 2 + np.cos(d1) * np.cos(d2) * np.sin(dr / 2) ** 2
 
 
 def near_scan(j):
@@ -163,15 +332,31 @@ def near_scan(j):
         'accuracy': fin & (np.abs(ddeg - ref) > 1e-6 * ref + floor),
         'symmetry': fin & (np.abs(d - dswap) * to_deg > 1e-6 * ref + floor),
     }
-    # the same pairs through scalar calls (a sample, the failures of the array call first)
-    idx = list(np.flatnonzero(masks['nan'])[:8]) + list(rng.integers(0, n, 48))
-    scalar_bad = []
+    # the same pairs through every scalar calling convention: the failures of the array call first, then the rounding-critical
+    # pairs (haversine sum closest to / above 1 and closest to 0 in a naive float64 evaluation), then a random sample
     with np.errstate(all='ignore'):
-        for i in idx:
-            s = float(gcirc(float(a[0][i]), float(a[1][i]), float(a[2][i]), float(a[3][i]), units=un))
-            if not (math.isfinite(s) and 0 <= s <= top * (1 + 1e-12) and abs(s * to_deg - ref[i]) <= 1e-6 * ref[i] + floor):
-                scalar_bad.append(int(i))
-    out = {'n': int(n), 'scalar_calls': len(idx), 'input_unchanged': bool(unchanged), 'counts': {}, 'examples': {}}
+        s2 = naive_sindis2(un, a)
+    order = np.argsort(s2)
+    nhard, nrand = j.get('n_hard', 150), j.get('n_random', 150)
+    idx = list(np.flatnonzero(masks['nan'])[:8]) + list(order[::-1][:nhard]) + list(order[:nhard // 3]) + \
+        list(rng.integers(0, n, nrand))
+    rows = [[float(x[i]) for x in a] for i in idx]
+    conv = scalar_conventions(un, rows)
+    # scalar answer = array answer (same numbers): only for the conventions that hold exactly the float64 numbers
+    with np.errstate(all='ignore'):
+        for cv in EXACT_CONVENTIONS[:2]:
+            for i in idx[:200]:
+                try:
+                    sv = float(np.asarray(gcirc(*conv_args(cv, [x[i] for x in a]), units=un)).ravel()[0])
+                except Exception:  # noqa: BLE001 (already recorded above)
+                    continue
+                if math.isfinite(sv) and math.isfinite(d[i]) and abs(sv - d[i]) * to_deg > 1e-6 * ref[i] + floor:
+                    st = conv[cv]
+                    st['counts']['differs-from-array-call'] = st['counts'].get('differs-from-array-call', 0) + 1
+                    st['examples'].setdefault('differs-from-array-call', {
+                        'input': [float(x[i]) for x in a], 'gcirc': fl(sv), 'array_call': fl(d[i]), 'reference_deg': float(ref[i])})
+    out = {'n': int(n), 'scalar_calls': sum(c['calls'] for c in conv.values()), 'input_unchanged': bool(unchanged), 'counts': {},
+           'examples': {}, 'conventions': conv, 'critical_above_one': int(np.count_nonzero(s2 > 1.0))}
     for what, mk in masks.items():
         bad = np.flatnonzero(mk)
         out['counts'][what] = int(bad.size)
@@ -179,20 +364,122 @@ def near_scan(j):
             i = int(bad[0])
             out['examples'][what] = {'input': [float(x[i]) for x in a], 'gcirc': fl(d[i]), 'swapped': fl(dswap[i]),
                                      'reference_deg': float(ref[i])}
-    out['counts']['scalar'] = len(scalar_bad)
-    if scalar_bad:
-        i = scalar_bad[0]
-        with np.errstate(all='ignore'):
-            s = gcirc(float(a[0][i]), float(a[1][i]), float(a[2][i]), float(a[3][i]), units=un)
-        out['examples']['scalar'] = {'input': [float(x[i]) for x in a], 'gcirc': fl(s), 'array_call': fl(d[i]),
-                                     'reference_deg': float(ref[i])}
     # how close to the special configuration the scan actually went (evidence)
     out['min_ref_deg'], out['max_ref_deg'] = float(ref.min()), float(ref.max())
     return out
 
 
+DERIVED_ROUTES = ['direct', 'replicate_without_data', 'replicate', 'realize_frame', 'skycoord-replicate',
+                  'skycoord-frame-replicate_without_data', 'skycoord-from-derived-frame', 'skycoord-by-name', 'copy', 'deepcopy', 'pickle',
+                  'pickle-direct', 'getitem', 'reshape', 'frame-copy', 'transform-result', 'transform-result-replicate',
+                  'replicate-twice', 'replicate-same-stripe', 'skycoord-pickle', 'skycoord-getitem']
+
+
+def derive(route, s0, s):
+    """an SDSSMuNu frame / coordinate / SkyCoord whose stripe is `s`, obtained by `route` from objects of stripe `s0`"""
+    base = pc.SDSSMuNu(stripe=s0)
+    co = pc.SDSSMuNu(mu=[12.0, 40.0] * u.deg, nu=[-3.0, 5.0] * u.deg, stripe=s0)
+    icrs = ICRS(ra=[10.0, 20.0] * u.deg, dec=[5.0, 6.0] * u.deg)
+    if route == 'direct':
+        return pc.SDSSMuNu(stripe=s)
+    if route == 'replicate_without_data':
+        return base.replicate_without_data(stripe=s)
+    if route == 'replicate':
+        return co.replicate(stripe=s)
+    if route == 'realize_frame':
+        return co.realize_frame(co.data, stripe=s)
+    if route == 'skycoord-replicate':
+        return SkyCoord(icrs).transform_to(base).replicate(stripe=s)
+    if route == 'skycoord-frame-replicate_without_data':
+        return SkyCoord(icrs).transform_to(base).frame.replicate_without_data(stripe=s)
+    if route == 'skycoord-from-derived-frame':
+        return SkyCoord(12.0 * u.deg, 3.0 * u.deg, frame=base.replicate_without_data(stripe=s))
+    if route == 'skycoord-by-name':
+        return SkyCoord(12.0 * u.deg, 3.0 * u.deg, frame='sdssmunu', stripe=s)
+    if route == 'copy':
+        return copy.copy(base.replicate_without_data(stripe=s))
+    if route == 'deepcopy':
+        return copy.deepcopy(co.replicate(stripe=s))
+    if route == 'pickle':
+        return pickle.loads(pickle.dumps(co.replicate(stripe=s)))
+    if route == 'pickle-direct':
+        return pickle.loads(pickle.dumps(pc.SDSSMuNu(stripe=s)))
+    if route == 'getitem':
+        return co.replicate(stripe=s)[1:]
+    if route == 'reshape':
+        return co.replicate(stripe=s).reshape(2, 1)
+    if route == 'frame-copy':
+        return co.replicate(stripe=s).copy()
+    if route == 'transform-result':
+        return icrs.transform_to(pc.SDSSMuNu(stripe=s))
+    if route == 'transform-result-replicate':
+        return icrs.transform_to(base).replicate(stripe=s)
+    if route == 'replicate-twice':
+        return base.replicate_without_data(stripe=(s0 + s + 7) % 90).replicate_without_data(stripe=s)
+    if route == 'replicate-same-stripe':
+        return pc.SDSSMuNu(stripe=s).replicate_without_data().replicate_without_data(stripe=s)
+    if route == 'skycoord-pickle':
+        return pickle.loads(pickle.dumps(SkyCoord(icrs).transform_to(base).replicate(stripe=s)))
+    if route == 'skycoord-getitem':
+        return SkyCoord(SkyCoord(icrs).transform_to(base).replicate(stripe=s))[0:1]
+    raise KeyError(route)
+
+
+def derived(j):
+    """frames obtained from other frames must satisfy the same relations as directly constructed ones"""
+    s0, s = j['base_stripe'], j['stripe']
+    lon, lat = np.array(j['lon'], dtype='d'), np.array(j['lat'], dtype='d')
+    mu, nu = np.array(j['mu'], dtype='d'), np.array(j['nu'], dtype='d')
+    out = {}
+    for route in j['routes']:
+        try:
+            obj = derive(route, s0, s)
+            fr = getattr(obj, 'frame', obj)
+            res = {'stripe_out': int(fr.stripe), 'incl': fl(fr.incl.to(u.deg).value), 'node': fl(fr.node.to(u.deg).value),
+                   'has_data': bool(fr.has_data)}
+            if fr.has_data:
+                # the object's own coordinates through its own frame
+                own = obj.transform_to(ICRS())
+                res['own'] = {'mu': fls(fr.mu.to(u.deg).value), 'nu': fls(fr.nu.to(u.deg).value),
+                              'ra': fls(own.ra.to(u.deg).value), 'dec': fls(own.dec.to(u.deg).value)}
+                fr = fr.replicate_without_data()
+                res['incl_without_data'] = fl(fr.incl.to(u.deg).value)
+            m = ICRS(ra=lon * u.deg, dec=lat * u.deg).transform_to(fr)
+            res['stripe_result'] = int(m.stripe)
+            res['incl_result'] = fl(m.incl.to(u.deg).value)
+            b = m.transform_to(ICRS())
+            res['r2m'] = {'lon1': fls(m.mu.to(u.deg).value), 'lat1': fls(m.nu.to(u.deg).value),
+                          'lon2': fls(b.ra.to(u.deg).value), 'lat2': fls(b.dec.to(u.deg).value)}
+            g = fr.realize_frame(UnitSphericalRepresentation(mu * u.deg, nu * u.deg))
+            c = g.transform_to(ICRS())
+            b = c.transform_to(fr)
+            res['m2r'] = {'lon1': fls(c.ra.to(u.deg).value), 'lat1': fls(c.dec.to(u.deg).value),
+                          'lon2': fls(b.mu.to(u.deg).value), 'lat2': fls(b.nu.to(u.deg).value)}
+            out[route] = res
+        except Exception as e:  # noqa: BLE001
+            out[route] = err(e)
+    return {'routes': out}
+
+
+class plain_state:
+    """the process-global state exactly as `import pydl` left it: no errstate of the runner, the warning filters of that moment"""
+    def __enter__(self):
+        self.cw = warnings.catch_warnings()
+        self.cw.__enter__()
+        warnings.filters[:] = FILTERS_AFTER_IMPORT
+        if hasattr(warnings, '_filters_mutated'):
+            warnings._filters_mutated()
+
+    def __exit__(self, *a):
+        return self.cw.__exit__(*a)
+
+
 def job(j):
     k = j['op']
+    if j.get('plain'):
+        # no errstate / warning filter of the runner around the call: what the caller gets depends on pydl's import side effects
+        with plain_state():
+            return job(dict(j, plain=False, no_errstate=True))
     try:
         if k == 'history':
             # several calls in ONE process, in order; every answer is later compared with the answer of the same call alone
@@ -221,14 +508,7 @@ def job(j):
         if k == 'angles_storage':
             pts = np.array(j['pts'], dtype='d').reshape(-1, 2)
             lat, st = bool(j['latitude']), j['storage']
-            if st == 'noncontig':
-                big = np.zeros((pts.shape[0], 5), dtype='d')
-                big[:, 1::2] = pts
-                a = big[:, 1::2]
-            elif st == 'fortran':
-                a = np.asfortranarray(pts)
-            else:
-                a = pts.astype(st)
+            a = stored2d(pts, st)
             keep = a.copy()
             ref64 = a.astype('d')
             x = angles_to_x(a, latitude=lat)
@@ -236,18 +516,25 @@ def job(j):
             back = x_to_angles(x, latitude=lat)
             xr = angles_to_x(ref64, latitude=lat)
             br = x_to_angles(xr, latitude=lat)
+            # the (N, 3) vectors themselves in the same storage type (float64 reference vectors, re-stored)
+            xs = stored2d(xr, st if st not in ('i4', 'i8') else 'noncontig')
+            xs_keep = xs.copy()
+            back_s = x_to_angles(xs, latitude=lat)
             return {'x': [fls(r) for r in xkeep], 'back': [fls(r) for r in back], 'x_ref': [fls(r) for r in xr],
                     'back_ref': [fls(r) for r in br], 'input_unchanged': same(a, keep), 'x_unchanged': same(x, xkeep),
-                    'aliases_input': bool(np.shares_memory(x, a) or np.shares_memory(back, x)),
+                    'back_stored': [fls(r) for r in back_s], 'xs_unchanged': same(xs, xs_keep),
+                    'aliases_input': bool(np.shares_memory(x, a) or np.shares_memory(back, x) or np.shares_memory(back_s, xs)),
                     'dtypes': [str(x.dtype), str(back.dtype)]}
         if k == 'gcirc':
             # pts: list of [ra1, dec1, ra2, dec2]; mode 'scalar' (one call per row) or 'array' (one call)
             pts = np.array(j['pts'], dtype='d').reshape(-1, 4)
             un = j['units']
             kw = {} if j.get('default_units') else {'units': un}
-            with np.errstate(all='ignore'):
+            with (np.errstate() if j.get('no_errstate') else np.errstate(all='ignore')):
                 if j.get('mode') == 'scalar':
                     out = [fl(gcirc(float(p[0]), float(p[1]), float(p[2]), float(p[3]), **kw)) for p in pts]
+                elif j.get('mode') in EXACT_CONVENTIONS:
+                    out = [fl(np.asarray(gcirc(*conv_args(j['mode'], p), **kw), dtype='d').ravel()[0]) for p in pts]
                 else:
                     out = fls(gcirc(pts[:, 0].copy(), pts[:, 1].copy(), pts[:, 2].copy(), pts[:, 3].copy(), **kw))
             return {'d': out}
@@ -325,6 +612,62 @@ def job(j):
             if j.get('storage'):
                 res['input_unchanged'] = bool(same(lon, lon_keep) and same(lat, lat_keep))
             return res
+        if k == 'derived':
+            return derived(j)
+        if k == 'globals':
+            now = global_state()
+            return {'before_import': STATE_BEFORE_IMPORT, 'after_import': STATE_AFTER_IMPORT, 'runner': STATE_RUNNER, 'after_calls': now,
+                    'modules': sorted(m for m in sys.modules if m == 'pydl' or m.startswith('pydl.'))}
+        if k == 'gcirc_inplace':
+            # the caller changes its arrays in place between two calls / passes one array object for two arguments / queries the
+            # earlier result again: every call is judged against the same call on fresh copies of the numbers as they then are
+            pts = np.array(j['pts'], dtype='d').reshape(-1, 4)
+            un = j['units']
+            a = [pts[:, c].copy() for c in range(4)]
+            res = {}
+            with np.errstate(all='ignore'):
+                d1 = gcirc(*a, units=un)
+                d1_keep = np.array(d1, copy=True)
+                a[0] += j['shift'][0]
+                a[3][:] = a[3] * j['shift'][1]
+                d2 = gcirc(*a, units=un)
+                res['second'] = fls(d2)
+                res['second_fresh'] = fls(gcirc(*[x.copy() for x in a], units=un))
+                res['first_result_unchanged'] = bool(np.array_equal(d1, d1_keep, equal_nan=True))
+                # one array object for both points (distance 0), and for RA and Dec of one point
+                res['same_object'] = fls(gcirc(a[0], a[1], a[0], a[1], units=un))
+                res['ra_is_dec'] = fls(gcirc(a[1], a[1], a[3], a[3], units=un))
+                res['ra_is_dec_fresh'] = fls(gcirc(a[1].copy(), a[1].copy(), a[3].copy(), a[3].copy(), units=un))
+                # the result array is the caller's: writing into it must not change a later answer
+                d2[...] = -1.0
+                res['third'] = fls(gcirc(*a, units=un))
+            return res
+        if k == 'gcirc_units_types':
+            pts = np.array(j['pts'], dtype='d').reshape(-1, 4)
+            out = {}
+            with np.errstate(all='ignore'):
+                for un in (0, 1, 2):
+                    ref = fls(gcirc(*[pts[:, c].copy() for c in range(4)], units=un))
+                    for nm, f in (('np.int64', np.int64), ('np.uint8', np.uint8), ('float', float), ('np.float64', np.float64),
+                                  ('np.int8', np.int8), ('0d-int', lambda v: np.array(v))):
+                        try:
+                            got = fls(gcirc(*[pts[:, c].copy() for c in range(4)], units=f(un)))
+                        except Exception as e:  # noqa: BLE001
+                            got = err(e)
+                        if got != ref:
+                            out['%s(%d)' % (nm, un)] = {'got': got, 'int_units': ref}
+                    if un == 1:
+                        try:
+                            got = fls(gcirc(*[pts[:, c].copy() for c in range(4)], units=True))
+                        except Exception as e:  # noqa: BLE001
+                            got = err(e)
+                        if got != ref:
+                            out['True'] = {'got': got, 'int_units': ref}
+                pos = fls(gcirc(pts[:, 0].copy(), pts[:, 1].copy(), pts[:, 2].copy(), pts[:, 3].copy(), 1))      # positional
+                kwd = fls(gcirc(ra1=pts[:, 0].copy(), dec1=pts[:, 1].copy(), ra2=pts[:, 2].copy(), dec2=pts[:, 3].copy(), units=1))
+                if pos != kwd:
+                    out['positional-vs-keyword'] = {'got': pos, 'int_units': kwd}
+            return {'differences': out}
         if k == 'stripe':
             conv = {'int': int, 'int64': np.int64, 'int16': np.int16, 'uint8': np.uint8, 'uint16': np.uint16,
                     'float': float, 'float64': np.float64}[j.get('type', 'int')]
